@@ -77,7 +77,7 @@ SINGLE = [
       contract="""
         ensures
             rhs.val() == 0real ==> r == Err::<Self, EvalError>(EvalError::DivideByZero),   // @SingleAmount.check_div.rejects_zero
-            rhs.val() != 0real ==> (r matches Ok(x) && x.commodity == self.commodity && x.v() * rhs.val() == self.v())
+            rhs.val() != 0real ==> (r matches Ok(x) && x.commodity == self.commodity && x.v() * rhs.val() == self.v() && x.v() == self.v() / rhs.val())
                                    || r == Err::<Self, EvalError>(EvalError::NumberOverflow),   // @SingleAmount.check_div.exact_quotient
 """),
     U("SingleAmount::abs", SA, [r"impl<'ctx> SingleAmount<'ctx>", r"pub fn abs\b"], fn="abs", wrap=IMPL_SA,
@@ -236,7 +236,7 @@ AMOUNT = [
       contract="""
         ensures
             rhs.val() == 0real ==> r == Err::<Self, EvalError>(EvalError::DivideByZero),
-            rhs.val() != 0real ==> (r matches Ok(x) && x@.dom() == self@.dom() && forall|c: Commodity| self@.contains_key(c) ==> #[trigger] x@[c] * rhs.val() == self@[c])
+            rhs.val() != 0real ==> (r matches Ok(x) && x@ == mdiv(self@, rhs.val()))
                                    || r == Err::<Self, EvalError>(EvalError::NumberOverflow),   // (ASSUMED, L1: HashMap::iter_mut)
 """),
     U("Neg for Amount", AM, [r"impl Neg for Amount<'_>"], fn="neg",
